@@ -44,7 +44,24 @@ func (p *Prog) intConst(pkg, name string) (int64, bool) {
 	return constant.Int64Val(v)
 }
 
+var vmTableMemo = map[*Prog]*vmTable{}
+
 func (p *Prog) vmTable() *vmTable {
+	if t, ok := vmTableMemo[p]; ok {
+		return t
+	}
+	t := p.vmTable0()
+	vmTableMemo[p] = t
+	// anonymous handlers get a stable name derived from their opcode
+	for _, o := range t.Ops {
+		if o.Handler != nil && o.Handler.Parent() != nil && !o.Shared {
+			handlerNames[o.Handler] = "handler[" + o.Name + "]"
+		}
+	}
+	return t
+}
+
+func (p *Prog) vmTable0() *vmTable {
 	t := &vmTable{ByName: map[string]*opInfo{}}
 	pk := p.Pkg("lua")
 	scope := pk.Types.Scope()
